@@ -182,7 +182,8 @@ def shard(idx, n, seed, tier, params):
                         break
                     got = set((pr.name_of_uri(l["uri"]),) + L.rng_tuple(l["range"]) for l in (resp.get("result") or []))
                     # `.import name as alias`: the suite pins that the usage covers `name as alias`; only its start is compared
-                    got = sorted(set(((g[0], g[1], g[2], g[3], import_ends[(g[0], g[1], g[2])]) if (g[0], g[1], g[2]) in import_ends else g) for g in got
+                    # (the usage may even end on a later line when a comment between the name and `as` spans lines)
+                    got = sorted(set(((g[0], g[1], g[2], g[1], import_ends[(g[0], g[1], g[2])]) if (g[0], g[1], g[2]) in import_ends else g) for g in got
                                      if not in_dead(g[0], g[1], g[2])))
                     exp = set((f, ln, c0, ln, c1) for (f, ln, c0, c1) in uses.get(d.uid, ()))
                     if incl:
